@@ -258,6 +258,35 @@ func TestHandler(t *testing.T) {
 				}
 				recAttrs, recExp = ka, ke
 			}
+			if format == "json" && rapid.IntRange(0, 4).Draw(t, "emptyKeyAttr") == 0 {
+				// an attribute with an empty key and a non-zero value is an attribute like any other (log/slog only
+				// asks handlers to ignore the Attr whose key AND value are zero); JSON only: "" is no logfmt key
+				labels["empty-key-attribute"] = true
+				strs := vlib.GenPlainString()
+				var a logslog.Attr
+				var e vlib.ExpAttr
+				switch rapid.IntRange(0, 3).Draw(t, "emptyKeyKind") {
+				case 0:
+					v := "s" + strs.Draw(t, "s")
+					a, e = logslog.String("", v), vlib.ExpAttr{Key: "", Val: vlib.Value{Kind: "string", V: v}}
+				case 1:
+					err := vlib.GenError(strs).Draw(t, "err")
+					a, e = logslog.Any("", err), vlib.ExpAttr{Key: "", Val: vlib.Value{Kind: "error", V: err}}
+				case 2:
+					v := []string{strs.Draw(t, "e0"), strs.Draw(t, "e1")}
+					a, e = logslog.Any("", v), vlib.ExpAttr{Key: "", Val: vlib.Value{Kind: "[]string", V: v}}
+				default:
+					v := rapid.Int64Range(1, 1<<40).Draw(t, "i")
+					a, e = logslog.Int64("", v), vlib.ExpAttr{Key: "", Val: vlib.Value{Kind: "int64", V: v}}
+				}
+				if rapid.Bool().Draw(t, "emptyKeyInsideGroup") {
+					g := "ekg"
+					if !recTaken[g] && !taken[g] {
+						a, e = logslog.Group(g, a), vlib.ExpAttr{Key: g, IsGroup: true, Group: []vlib.ExpAttr{e}}
+					}
+				}
+				recAttrs, recExp = append(recAttrs, a), append(recExp, e)
+			}
 			ts := vlib.GenTime().Draw(t, "ts")
 			direct := rapid.Bool().Draw(t, "directHandle")
 			ctx := context.Background()
